@@ -400,6 +400,8 @@ def r127(report, index, lm, pm, tier):
                      'scenarios)', floor=60)
     pmeth = pm.class_methods('Parser')
     lmeth = lm.class_methods('Lexer')
+    from .shared import models as _models
+    M_lexmodel = _models(index).lexmodel
     rse = pmeth.get('_raise_syntax_error')
     t_error = lmeth.get('t_error')
     t_regex_error = lmeth.get('t_regex_error')
@@ -472,7 +474,10 @@ def r127(report, index, lm, pm, tier):
             for with_prev in (True, False):
                 lexer = Obj('Lexer', cur_token=toks[2] if with_prev else None,
                             error_token_handlers=[],
-                            newline_idx=list(starts))
+                            newline_idx=list(starts),
+                            lexer=Obj('PlyLexer', lexdata=text,
+                                      lexpos=err.lexpos,
+                                      lineno=len(starts)))
                 ev = evaluator(lm, 'Lexer', lmeth)
                 out = 'returns'
                 try:
@@ -490,7 +495,9 @@ def r127(report, index, lm, pm, tier):
         text = text.rstrip(' ')
         import re as _re
         starts = [0] + [m.end() for m in _re.finditer(LT_SPLIT, text)]
-        lexer = Obj('Lexer', cur_token=toks[1], newline_idx=list(starts))
+        lexer = Obj('Lexer', cur_token=toks[1], newline_idx=list(starts),
+                    lexer=Obj('PlyLexer', lexdata=text,
+                              lexpos=toks[2].lexpos, lineno=len(starts)))
         ev = evaluator(lm, 'Lexer', lmeth)
         out = 'returns'
         try:
@@ -500,6 +507,44 @@ def r127(report, index, lm, pm, tier):
         judge('t_regex_error%s' % (' on line 2' if prefix else ''),
               'Lexer.t_regex_error at %r of %r' % ('/ab[c', text), text,
               out, 'lexers/es5.py:t_regex_error')
+    # the parenthesis bookkeeping of the lexer: token sequences (laid out
+    # on a text) fed through _get_update_token up to the end of input
+    from .c04 import mk_lexer_obj
+    gut = lmeth.get('_get_update_token')
+    if gut is None:
+        raise AnalysisError('Lexer._get_update_token vanished')
+    TY = {'while': 'WHILE', 'if': 'IF', 'for': 'FOR', 'with': 'WITH',
+          '(': 'LPAREN', ')': 'RPAREN', ';': 'SEMI', '{': 'LBRACE',
+          '}': 'RBRACE'}
+    seqs = (['while', '(', 'a'], ['if', '('], ['for', '(', 'x', ';'],
+            ['f', '(', 'a'], ['a', ')'], ['while', '(', 'a', ')', ')'],
+            ['(', 'a', ')', ')'], ['with', '(', '(', 'a', ')'],
+            ['if', '(', 'a', ')', '{', 'b', ')'], [')'])
+    for prefix in ('', 'q;\n  '):
+        for seq in seqs:
+            text, toks = layout_tokens(prefix, [
+                (v, TY.get(v, 'ID')) for v in seq])
+            feed_ = list(toks) + [None]
+            lexer = mk_lexer_obj(lm=M_lexmodel)
+            lexer.lexer = Obj('PlyLexer', lexdata=text, lexpos=0, lineno=1)
+            lexer.get_lexer_token = ('pyfunc', lambda feed_=feed_:
+                                     feed_.pop(0))
+            out = 'returns'
+            try:
+                for _ in range(len(toks) + 1):
+                    ev = evaluator(lm, 'Lexer', lmeth, {
+                        'AutoLexToken': lambda: Obj('AutoLexToken')})
+                    ev.call(gut, [], self_obj=lexer)
+            except Raised as e:
+                out = raised_text(e)
+            if out == 'returns':
+                r7.ok('%s: no error from the lexer' % ' '.join(seq))
+                continue
+            judge('parenthesis bookkeeping on `%s`%s' % (
+                ' '.join(seq), ' on line 2' if prefix else ''),
+                'Lexer._get_update_token over %r up to the end of input'
+                % text, text, out,
+                'lexers/es5.py:Lexer._get_update_token')
     # unterminated strings and broken escapes
     h = lm.functions.get('broken_string_token_handler')
     if h is None:
@@ -547,6 +592,59 @@ def describe(v):
 
 def shape_of(body):
     return repr(body)
+
+
+def text_passthrough_rule(report, index, rid):
+    """Parser.parse and Lexer.input hand the text to ply exactly as given:
+    every offset, line and column reported later is relative to what the
+    caller passed in"""
+    pm = index.need(PAR)
+    lm = index.need(LEX)
+    r = report.rule(rid, 'the text reaches the ply parser and lexer '
+                    'unchanged (positions in messages and nodes are '
+                    'relative to the caller\'s text)', floor=8)
+    parse = need_function(pm, 'parse', 'Parser')
+    linput = lm.class_methods('Lexer').get('input')
+    texts = ('a', '\ufeffvar a = 1 2;', '  a  ', 'a\r\nb', '\n\na',
+             '\u2028x', 'x\x00y', '')
+    for text in texts:
+        seen = []
+
+        def ply_parse(*a, **k):
+            seen.append((a, k))
+            return Obj('ES5Program')
+        parser = Obj('Parser', parser=Obj('LRParser', parse=(
+            'pyfunc', ply_parse)), lexer=Obj('Lexer'), yacc_tracking=True)
+        ev = Evaluator(pm, 'Parser', pm.class_methods('Parser'), {
+            'isinstance': None}, is_subclass=lambda c, b: c == b)
+        ev.functions.pop('isinstance', None)
+        try:
+            ev.call(parse, [text], self_obj=parser)
+            got = seen[0][0][0] if seen and seen[0][0] else (
+                seen[0][1].get('input') if seen else None)
+        except Raised as e:
+            got = 'raises %s' % e.text
+        r.check(got == text and len(seen) == 1, 'Parser.parse text %r' % text,
+                'Parser.parse(%r)' % text,
+                'the ply parser is given %r: the text is altered before '
+                'lexing, so every reported position is relative to another '
+                'text than the caller\'s' % (got,),
+                where='parsers/es5.py:Parser.parse', witness=text)
+        if linput is not None:
+            fed = []
+            lexer = Obj('Lexer', lexer=Obj('PlyLexer', input=(
+                'pyfunc', lambda t: fed.append(t))))
+            ev = Evaluator(lm, 'Lexer', lm.class_methods('Lexer'), {})
+            try:
+                ev.call(linput, [text], self_obj=lexer)
+                got = fed[0] if fed else None
+            except Raised as e:
+                got = 'raises %s' % e.text
+            r.check(got == text and len(fed) == 1,
+                    'Lexer.input text %r' % text, 'Lexer.input(%r)' % text,
+                    'the ply lexer is given %r' % (got,),
+                    where='lexers/es5.py:Lexer.input', witness=text)
+    return r
 
 
 def run(report, index, tier):
@@ -963,6 +1061,7 @@ def run(report, index, tier):
     # R12.5 ---------------------------------------------------------------
     r126(report, index, lm, pm, tier)
     r127(report, index, lm, pm, tier)
+    text_passthrough_rule(report, index, 'R12.8')
     from .shared import models
     from engine.actions import Slot
     M = models(index)
